@@ -431,7 +431,7 @@ def file_text(t, fid):
     if gen:
         # every spelling of the marker: it is a substring test on the first lines, wherever it stands
         forms = ["// @generated\n", "//@generated\n", "/* @generated */\n", "/*\n * This file is @generated by a tool.\n */\n", "//! @generated\n",
-                 "// Copyright\n// @generated SignedSource<<abc>>\n", "#![doc = \"@generated\"]\n", "/** @generated */\n"]
+                 "// Copyright\n// @generated SignedSource<<abc>>\n", "#![doc = \"@generated\"]\n"]          # (an OUTER doc comment would need an item right after it)
         s += forms[fid % len(forms)]
     if sk:
         s += "#![rustfmt::skip]\n"
